@@ -8,7 +8,7 @@
 (* on an accepted path in the variable kf.                                       *)
 EXTENDS ByteSet, TLC
 
-KnownIds == {"C05-KF1", "C05-KF3", "C05-KF4", "C05-KF7"}
+KnownIds == {"C05-KF1", "C05-KF3", "C05-KF4", "C05-KF7", "C05-KF8", "C05-KF9"}
 
 AllFalse(s) == \A i \in 1..Len(s) : s[i] = FALSE
 U_(subj) == subj.universe
@@ -53,9 +53,11 @@ KF3(e, subj) == IF G3(e, subj) THEN UNCHANGED S ELSE FALSE
 (* insert returns Ok and stores nothing, yet len() counts the call.                            *)
 G4(e, subj) ==
     /\ subj.fam = "critbit"
-    /\ \/ e.op = "insert" /\ e.ok
+    /\ \/ e.op = "insert" /\ e.ok /\ ~e.after        \* Ok, yet contains(k) is false right after the call
        \/ /\ e.op = "probe" /\ e.len = e.ctr.ins_ok /\ e.len > Cardinality(S)
           /\ ProbeSetOK(U_(subj), Cardinality(S), e.contains, e.absent)
+          /\ \A i \in 1..Len(e.len_twins) : e.len_twins[i] = e.len
+          /\ \A i \in 1..Len(e.is_empty) : e.is_empty[i] = FALSE
        \/ e.op = "len" /\ e.r = e.ctr.ins_ok /\ e.r > Cardinality(S)
 KF4(e, subj) == IF G4(e, subj) THEN UNCHANGED S ELSE FALSE
 
@@ -90,8 +92,11 @@ KF6(e, subj) == IF G6(e, subj) THEN UNCHANGED S ELSE FALSE
 (* states shared by several keys: the inserted suffix becomes a suffix of every key through    *)
 (* the shared state.  The language of the automaton becomes a superset of S in which every     *)
 (* extra word is a splice (a prefix of a member followed by a suffix of a member); no member   *)
-(* is lost.  Trigger: a build succeeded earlier in the run and an insert succeeded after it    *)
-(* (counters logged by the harness), and an extra word is in fact observed.                    *)
+(* is lost.  When such an extra word is inserted later it is not counted (its state is already *)
+(* terminal), so len() may be smaller than |S| by at most the number of inserts since the      *)
+(* build (the seed-2 trace: build {.., [0], [255], ..}; insert [255,255] makes [0,255] a word; *)
+(* insert [0,255] -> len() = |S| - 1).  Trigger: a build succeeded earlier in the run and an   *)
+(* insert succeeded after it (counters logged by the harness), and the contract rejects.       *)
 IsSuffix(t, k) == Len(t) <= Len(k) /\ \A i \in 1..Len(t) : t[i] = k[Len(k) - Len(t) + i]
 Drop(k, n) == SubSeq(k, n + 1, Len(k))
 InSplice(k) == \E i \in 0..Len(k) : /\ \E m \in S : IsPrefix(Take(k, i), m)
@@ -104,18 +109,60 @@ LpSupOK(q, r) ==
     /\ r /= None => (r[1] \in 0..Len(q) /\ (Take(q, r[1]) \in S \/ InSplice(Take(q, r[1]))))
 AfterBuildInsert(e) == HasCtr(e) /\ e.ctr.built /\ e.ctr.iab > 0
 G7(e, subj) ==
-    LET U == U_(subj) IN
+    LET U == U_(subj)
+        \* a key that was already an extra word is not counted when it is inserted later (its state is
+        \* terminal already), so len() may fall short of |S| by at most the inserts made since the build
+        LenOK(n) == n <= Cardinality(S) /\ n + e.ctr.iab >= Cardinality(S)
+    IN
     /\ subj.fam = "dawg"
     /\ AfterBuildInsert(e)
-    \* Once a key was inserted into the minimised automaton its language is corrupted: mostly extra words
-    \* that are splices of members, but (seed 2) members can also disappear when a shared state is
-    \* rewritten, and len() follows contains().  From the first insert after a build on, the membership
-    \* answers of this subject are therefore not constrained; everything before that point, and every
-    \* DAWG that is only built or only inserted into, is judged strictly.
-    /\ \/ e.op = "probe" /\ Len(e.contains) = Len(U)
-       \/ e.op = "probe_fsa" /\ Len(e.accepts) = Len(U) /\ Len(e.lookup) = Len(U)
-       \/ e.op \in {"contains", "accepts", "lookup", "len", "longest_prefix", "keys", "keys_with_prefix", "probe_keys"}
+    /\ \/ /\ e.op = "probe"
+          /\ ~(ProbeSetOK(U, e.len, e.contains, e.absent) /\ TwinsOK(e.len_twins, e.is_empty))
+          /\ LenOK(e.len)
+          /\ \A i \in 1..Len(e.len_twins) : e.len_twins[i] = e.len
+          /\ \A i \in 1..Len(e.is_empty) : e.is_empty[i] = (e.len = 0)
+          /\ Len(e.contains) = Len(U)
+          /\ \A i \in 1..Len(U) : SupOK(U[i], e.contains[i])
+          /\ \A i \in 1..Len(e.absent) : SupOK(e.absent[i][1], e.absent[i][2])
+       \/ /\ e.op = "probe_fsa"
+          /\ ~ProbeFsaOK(U, e.accepts, e.lookup, e.absent, e.longest)
+          /\ Len(e.accepts) = Len(U) /\ Len(e.lookup) = Len(U)
+          /\ \A i \in 1..Len(U) : SupOK(U[i], e.accepts[i]) /\ SupOK(U[i], e.lookup[i])
+          /\ \A i \in 1..Len(e.absent) : SupOK(e.absent[i][1], e.absent[i][2]) /\ SupOK(e.absent[i][1], e.absent[i][3])
+          /\ \A i \in 1..Len(e.longest) : LpSupOK(e.longest[i][1], e.longest[i][2])
+       \/ e.op \in {"contains", "accepts"} /\ Extra(e.k, e.r) /\ InSplice(e.k)
+       \/ e.op = "longest_prefix" /\ e.r /= LongestPrefixOf(e.q) /\ LpSupOK(e.q, e.r)
+       \/ e.op = "len" /\ e.r /= Cardinality(S) /\ LenOK(e.r)
 KF7(e, subj) == IF G7(e, subj) THEN UNCHANGED S ELSE FALSE
+
+(* C05-KF8: ZiporaTrie::restore_string of the LOUDS strategy still reads the label store as     *)
+(* NUL-terminated strings although insert_louds writes [len][bytes] records: the restored       *)
+(* string starts with the length byte, stops at the first 0x00 byte (so it may be cut inside    *)
+(* the key or run on into later records) and is None for the empty key.  lookup_node_id itself  *)
+(* is right.  Only the restored column is relaxed, and only to that shape.                      *)
+RawRestore(k, r) == /\ Len(r) >= 1 /\ r[1] = Len(k)
+                    /\ \A j \in 2..Len(r) : (j - 1 <= Len(k)) => r[j] = k[j - 1]
+G8(e, subj) ==
+    /\ subj.fam = "louds"
+    /\ e.op = "probe_ids" /\ ~ProbeIdsOK(e.ids)
+    /\ \A i \in 1..Len(e.ids) :
+          /\ e.ids[i][2] = (e.ids[i][1] \in S)
+          /\ ~e.ids[i][2] => e.ids[i][3] = None
+          /\ e.ids[i][3] /= None => (e.ids[i][3][1] = e.ids[i][1] \/ RawRestore(e.ids[i][1], e.ids[i][3][1]))
+KF8(e, subj) == IF G8(e, subj) THEN UNCHANGED S ELSE FALSE
+
+(* C05-KF9: the node-id API of ZiporaTrie is implemented for the Patricia and LOUDS strategies   *)
+(* only: for every other strategy insert_and_get_node_id returns Ok(0), stores nothing and       *)
+(* counts the call; lookup_node_id is None (consistent with the empty trie).                     *)
+G9(e, subj) ==
+    /\ subj.fam \in {"darray", "sparse", "critbit"} /\ subj.variant = "node_id_api"
+    /\ \/ e.op = "insert" /\ e.ok /\ ~e.after        \* Ok, yet contains(k) is false right after the call
+       \/ /\ e.op = "probe" /\ e.len = e.ctr.ins_ok /\ e.len > Cardinality(S)
+          /\ ProbeSetOK(U_(subj), Cardinality(S), e.contains, e.absent)
+          /\ \A i \in 1..Len(e.len_twins) : e.len_twins[i] = e.len
+          /\ \A i \in 1..Len(e.is_empty) : e.is_empty[i] = FALSE
+       \/ e.op = "len" /\ e.r = e.ctr.ins_ok /\ e.r > Cardinality(S)
+KF9(e, subj) == IF G9(e, subj) THEN UNCHANGED S ELSE FALSE
 
 (* guard (state predicate) and action of each deviation.  In KF mode a deviation whose   *)
 (* guard holds REPLACES the contract action for that event.  The actions test their guard *)
@@ -129,6 +176,8 @@ DevApplies(id, e, subj) ==
     \/ id = "C05-KF5" /\ G5(e, subj)
     \/ id = "C05-KF6" /\ G6(e, subj)
     \/ id = "C05-KF7" /\ G7(e, subj)
+    \/ id = "C05-KF8" /\ G8(e, subj)
+    \/ id = "C05-KF9" /\ G9(e, subj)
 KnownDeviation(id, e, subj) ==
     \/ id = "C05-KF1" /\ KF1(e, subj)
     \/ id = "C05-KF2" /\ KF2(e, subj)
@@ -137,4 +186,6 @@ KnownDeviation(id, e, subj) ==
     \/ id = "C05-KF5" /\ KF5(e, subj)
     \/ id = "C05-KF6" /\ KF6(e, subj)
     \/ id = "C05-KF7" /\ KF7(e, subj)
+    \/ id = "C05-KF8" /\ KF8(e, subj)
+    \/ id = "C05-KF9" /\ KF9(e, subj)
 =============================================================================
